@@ -160,12 +160,20 @@ pub(crate) fn memo_macro(args: TokenStream, item: TokenStream) -> TokenStream {
     let output = quote! {
         #(#attrs)*
         #vis #new_sig {
+            // The signature text alone does not identify a function: two functions in
+            // different modules can have identical signatures. A local marker type is
+            // unique per function item.
+            struct __PicoMemoizedFn;
             let _memo_span = ::tracing::debug_span!(#fn_name).entered();
             let mut param_ids = ::pico::macro_fns::init_param_vec();
             #(
                 #param_ids_blocks
             )*
-            let derived_node_id = ::pico::DerivedNodeId::new(#fn_hash.into(), param_ids);
+            let fn_key = ::pico::macro_fns::hash(&(
+                #fn_hash,
+                ::core::any::TypeId::of::<__PicoMemoizedFn>(),
+            ));
+            let derived_node_id = ::pico::DerivedNodeId::new(fn_key.into(), param_ids);
             let did_recalculate = ::pico::execute_memoized_function(
                 #db_arg,
                 derived_node_id,
